@@ -328,6 +328,8 @@ def staged_strategy():
         st.text(alphabet=ALNUM, min_size=3, max_size=6).map(lambda s: "/" + s),
         st.integers(0, 2**32).map(lambda s: ("x86", s)),
         st.integers(0, 2**32).map(lambda s: ("x64", s)),
+        # checksum 93 alone does not make an x64 stager URI (it also needs the "/" + four alphanumerics shape)
+        st.integers(0, 2**32).map(lambda s: ("sum93_not_x64", s)),
         # a known request whose URI is empty, or holds bytes outside ASCII, is still a known request
         st.just(""),
         st.lists(st.integers(0x80, 0xFF), min_size=1, max_size=5).map(bytes),
@@ -351,6 +353,13 @@ def _mk_uri(u):
     if isinstance(u, (tuple, list)):
         kind, seed = u
         r = random.Random(seed)
+        if kind == "sum93_not_x64":
+            while True:
+                body = "/" + "".join(r.choice(ALNUM + "/.-_") for _ in range(r.choice([2, 3, 5, 6, 7, 9])))
+                for c in ALNUM:
+                    s = body + c
+                    if ref_checksum8(s) == 93 and not ref_is_x64(s) and not ref_is_x86(s):
+                        return s
         while True:
             s = "/" + "".join(r.choice(ALNUM) for _ in range(4))
             if (ref_is_x64 if kind == "x64" else ref_is_x86)(s):
